@@ -387,4 +387,53 @@ example : (mpz_powm_ui (-(2 ^ 200 + 12345)) 19 (2 ^ 70 + 3)).value? = powmSpec (
     (mpz_powm_ui 7 20 (3 * 2 ^ 65)).value? = some (7 ^ 20 % (3 * 2 ^ 65)) ∧
     (mpz_powm_ui (2 ^ 64 - 1) 1 (2 ^ 63 + 1)).value? = some ((2 ^ 64 - 1) % (2 ^ 63 + 1)) := by decide +kernel
 
+
+/-- What `powmSpec` means (so that the theorems above say what C08 says): `none` for `m = 0`;
+    `b^e mod |m|` in `[0,|m|)` for `e ≥ 0`; for `e < 0` and `|m| > 1` a value `r ∈ [0,|m|)` with
+    `r · b^(−e) ≡ 1 (mod |m|)` when it exists, and `none` only if `gcd(b, m) ≠ 1`. -/
+theorem powmSpec_char (b e m : Int) :
+    (m = 0 → powmSpec b e m = none) ∧
+    (m ≠ 0 → 0 ≤ e → powmSpec b e m = some (b ^ e.toNat % (m.natAbs : Int)) ∧
+        0 ≤ b ^ e.toNat % (m.natAbs : Int) ∧ b ^ e.toNat % (m.natAbs : Int) < m.natAbs) ∧
+    (1 < m.natAbs → e < 0 → ∀ r, powmSpec b e m = some r →
+        0 ≤ r ∧ r < m.natAbs ∧ (r * b ^ (-e).toNat) % (m.natAbs : Int) = 1) ∧
+    (1 < m.natAbs → e < 0 → powmSpec b e m = none → Int.gcd b m ≠ 1) := by
+  refine ⟨fun h => by simp [powmSpec, h], ?_, ?_, ?_⟩
+  · intro hm he
+    have hpos : (0 : Int) < m.natAbs := by
+      have := Int.natAbs_pos.mpr hm; exact_mod_cast this
+    exact ⟨by simp [powmSpec, hm, he], Int.emod_nonneg _ (ne_of_gt hpos), Int.emod_lt_of_pos _ hpos⟩
+  · intro hm he r hr
+    have hm0 : m ≠ 0 := by intro h; rw [h] at hm; simp at hm
+    have hpos : (0 : Int) < m.natAbs := by omega
+    unfold powmSpec at hr
+    simp only [hm0, if_false, show ¬ (0 ≤ e) by omega, show m.natAbs ≠ 1 by omega] at hr
+    cases hinv : modInv? b m.natAbs with
+    | none => rw [hinv] at hr; simp at hr
+    | some i =>
+      rw [hinv] at hr
+      simp only [Option.some.injEq] at hr
+      obtain ⟨_, hi⟩ := modInv_sound b m.natAbs (by omega) i hinv
+      subst hr
+      refine ⟨Int.emod_nonneg _ (ne_of_gt hpos), Int.emod_lt_of_pos _ hpos, ?_⟩
+      have h1 : (i : Int) ^ (-e).toNat % (m.natAbs : Int) * b ^ (-e).toNat ≡ ((i : Int) * b) ^ (-e).toNat [ZMOD (m.natAbs : Int)] := by
+        rw [mul_pow]; exact (Int.mod_modEq _ _).mul_right _
+      have h2 : (i : Int) * b ≡ 1 [ZMOD (m.natAbs : Int)] := by
+        have : b * (i : Int) ≡ 1 [ZMOD (m.natAbs : Int)] := hi
+        rwa [mul_comm] at this
+      have h3 := h1.trans (h2.pow _)
+      rw [one_pow] at h3
+      have : (1 : Int) % (m.natAbs : Int) = 1 := Int.emod_eq_of_lt (by omega) (by omega)
+      rw [← this]; exact h3
+  · intro hm he hn
+    have hm0 : m ≠ 0 := by intro h; rw [h] at hm; simp at hm
+    unfold powmSpec at hn
+    simp only [hm0, if_false, show ¬ (0 ≤ e) by omega, show m.natAbs ≠ 1 by omega] at hn
+    cases hinv : modInv? b m.natAbs with
+    | none =>
+      exact modInv_none b m.natAbs (by omega) hinv
+    | some i => rw [hinv] at hn; simp at hn
+
+example : powmSpec 3 (-2) 7 = some 4 ∧ (4 * 3 ^ 2) % 7 = 1 := by decide +kernel
+
 end Mpir.Powm
